@@ -9,8 +9,10 @@ Import ListNotations.
    Writing a bag with any of the four exact writers bag-write reaches without the pretty printer (SEN or JSON,
    tight or indented) and parsing the text gives back the same data: every value v inside the guard text_ok
    (valid UTF-8 strings; strings SEN leaves unquoted must be safe bare tokens; int64 below the parser's int64
-   limit, json.Number integers above it; float texts are number literals; unique keys). *)
-Theorem C18_write_parse_roundtrip : forall f sty v, text_ok false f v = true -> parse (write f sty v) = Some v.
+   limit, json.Number integers above it; float texts are number literals; unique keys) and top_ok (the text does
+   not begin with the byte 0xEF, which the parser takes for a byte order mark). *)
+Theorem C18_write_parse_roundtrip : forall f sty v,
+  text_ok false f v = true -> top_ok f v = true -> parse (write f sty v) = Some v.
 Proof. exact write_parse_roundtrip. Qed.
 Print Assumptions C18_write_parse_roundtrip.
 
@@ -18,7 +20,8 @@ Print Assumptions C18_write_parse_roundtrip.
    bare tokens / numbers do not touch), the text parses to v.  This is what covers pretty.Writer, whose
    width-driven layout is not modelled: per run its output is only checked to parse (in the model) to v. *)
 Theorem C18_parse_any_layout : forall f ps v,
-  wf_pieces f PNone ps = true -> toks ps = tokens_of f v -> value_ok f v = true -> parse (print f ps) = Some v.
+  wf_pieces f PNone ps = true -> toks ps = tokens_of f v -> value_ok f v = true -> no_bom (print f ps) = true ->
+  parse (print f ps) = Some v.
 Proof. exact parse_any_layout. Qed.
 Print Assumptions C18_parse_any_layout.
 
@@ -37,7 +40,8 @@ Print Assumptions C18_integer_roundtrip.
 
 (* The guard is satisfiable by a document with every kind of value; and outside it the faithful model breaks
    the round trip (each is a known finding): *)
-Theorem C18_text_guard_nonvacuous : text_ok false FJson sample_doc = true /\ text_ok false FSen sample_doc = true.
+Theorem C18_text_guard_nonvacuous :
+  text_ok false FJson sample_doc = true /\ text_ok false FSen sample_doc = true /\ top_ok FSen (JStr (B [239; 189; 177; 98]%N)) = false.
 Proof. exact sample_in_guard. Qed.
 Print Assumptions C18_text_guard_nonvacuous.
 Theorem C18_sen_keyword_string_refuted : parse (write FSen Tight (JStr (Bs "true"))) = Some (JBool true).
@@ -57,6 +61,11 @@ Theorem C18_invalid_utf8_refuted :
   parse (write FSen Tight (JStr (B [97; 195]%N))) = Some (JStr (B [97; 239; 191; 189]%N)).
 Proof. exact invalid_utf8_refuted. Qed.
 Print Assumptions C18_invalid_utf8_refuted.
+Theorem C18_sen_bom_string_refuted :
+  parse (write FSen Tight (JStr (B [239; 187; 191; 98; 111; 109]%N))) = Some (JStr (Bs "bom")) /\
+  parse (write FSen Indent2 (JStr (B [239; 189; 177; 98; 99; 100]%N))) = None.
+Proof. exact sen_bom_string_refuted. Qed.
+Print Assumptions C18_sen_bom_string_refuted.
 Theorem C18_int64_edge_refuted :
   parse (write FJson Tight (JInt 9223372036854775807)) = Some (JBig 9223372036854775807) /\
   parse (write FSen Tight (JInt (-9223372036854775808))) = Some (JBig (-9223372036854775808)).
